@@ -909,8 +909,8 @@ func (s *Store[K, V]) processSecondary() {
 		tk := item.shard.mu.RLock()
 		// first double check key still exists in map,
 		// not exist means key already deleted by Delete API
-		_, exist := item.shard.get(item.entry.key)
-		if exist {
+		current, exist := item.shard.get(item.entry.key)
+		if exist && current == item.entry {
 			err := s.secondaryCache.Set(
 				item.entry.key, item.entry.value,
 				item.entry.weight.Load(), item.entry.expire.Load(),
